@@ -644,6 +644,50 @@ func c52TwistSolve(x rc.Fp2) (rc.Fp2, bool) {
 	return y, true
 }
 
+// c52OneComponent turns a genuine twist point into an off-curve pair that still satisfies the curve equation
+// in ONE component of F_p^2 (y^2 - x^3 - b' has a zero real part or a zero imaginary part, not both):
+//
+//	0: y' = Re(y)/2 + 2 Im(y) i     Im(y'^2) = 2 Re Im unchanged, real part differs
+//	1: y' = 2 Re(y) + Im(y)/2 i     same
+//	2: y' = conj(y)                 Re(y'^2) unchanged, imaginary part negated
+//	3: y' = -conj(y)                same
+//	4: x' = conj(x)                 Re(x'^3) unchanged, imaginary part negated
+func c52OneComponent(pt rc.G2Pt, mode int) rc.G2Pt {
+	inv2 := new(big.Int).ModInverse(big.NewInt(2), rc.BNP)
+	half := func(v *big.Int) *big.Int { return new(big.Int).Mul(v, inv2) }
+	dbl := func(v *big.Int) *big.Int { return new(big.Int).Lsh(v, 1) }
+	out := rc.G2Pt{X: pt.X, Y: pt.Y}
+	switch mode {
+	case 0:
+		out.Y = rc.NewFp2(half(pt.Y.Re), dbl(pt.Y.Im))
+	case 1:
+		out.Y = rc.NewFp2(dbl(pt.Y.Re), half(pt.Y.Im))
+	case 2:
+		out.Y = rc.NewFp2(pt.Y.Re, new(big.Int).Neg(pt.Y.Im))
+	case 3:
+		out.Y = rc.NewFp2(new(big.Int).Neg(pt.Y.Re), pt.Y.Im)
+	default:
+		out.X = rc.NewFp2(pt.X.Re, new(big.Int).Neg(pt.X.Im))
+	}
+	return out
+}
+
+var c52OneComponentNames = []string{"y=(Re/2,2Im)", "y=(2Re,Im/2)", "y=conj", "y=-conj", "x=conj"}
+
+// c52ComponentClass says which component of y^2 - x^3 - b' vanishes for an off-curve pair.
+func c52ComponentClass(pt rc.G2Pt) string {
+	d := pt.Y.Mul(pt.Y).Sub(pt.X.Mul(pt.X).Mul(pt.X)).Sub(rc.TwistB())
+	switch {
+	case d.Re.Sign() == 0 && d.Im.Sign() == 0:
+		return "on-curve"
+	case d.Re.Sign() == 0:
+		return "real-part-right"
+	case d.Im.Sign() == 0:
+		return "imaginary-part-right"
+	}
+	return "both-wrong"
+}
+
 func (e *c52Env) caseG2Encoding(rt *rapid.T) {
 	pt, pc := e.c52G2Point(rt)
 	enc := pt.Encode()
@@ -667,6 +711,12 @@ func (e *c52Env) caseG2Encoding(rt *rapid.T) {
 				cls = fmt.Sprintf("enc:coordinate+p(%04b)", done)
 			}
 		}
+	case k == 8: // off the twist, but the equation holds in one component of F_p^2
+		if !pt.Inf {
+			op := c52OneComponent(pt, c52Uni(rt, "oneCompMode8", 5))
+			enc = op.Encode()
+			cls = "enc:off-curve(" + c52ComponentClass(op) + ")"
+		}
 	case k < 9: // off the twist
 		if !pt.Inf {
 			i := c52Uni(rt, "offCoord", 4)
@@ -676,6 +726,13 @@ func (e *c52Env) caseG2Encoding(rt *rapid.T) {
 			v.FillBytes(b)
 			copy(enc[32*i:], b)
 			cls = "enc:off-curve(coordinate+1)"
+		}
+	case k < 10 && c52Uni(rt, "oneComp", 3) != 0: // the equation holds in one component of F_p^2 only
+		if !pt.Inf {
+			m := c52Uni(rt, "oneCompMode", 5)
+			op := c52OneComponent(pt, m)
+			enc = op.Encode()
+			cls = "enc:off-curve(" + c52ComponentClass(op) + ")"
 		}
 	case k < 10: // real and imaginary parts exchanged
 		if !pt.Inf {
@@ -1481,6 +1538,47 @@ func TestC52(t *testing.T) {
 		}
 	}
 	c.Exhaustive("coordinate+p encodings of [k]G and [k]Q, k = 1..K (all that fit in 32 bytes)", mults)
+	// off-curve pairs that satisfy the twist equation in one component only, built from [k]Q and from
+	// non-subgroup curve points; G1: sign flip of x, (y, x) swap, y+1
+	oc := 0
+	for k := 1; k <= ev.Scale(16, 200); k++ {
+		if !ev.Mine(k) {
+			continue
+		}
+		srcs := []rc.G2Pt{q.Mul(big.NewInt(int64(k)))}
+		if pts := c52G2WithX(rc.NewFp2(big.NewInt(int64(k)), big.NewInt(int64(3*k+1)))); len(pts) > 0 {
+			srcs = append(srcs, pts...)
+		}
+		for _, src := range srcs {
+			for m := 0; m < 5; m++ {
+				op := c52OneComponent(src, m)
+				cc := c52ComponentClass(op)
+				if cc == "on-curve" {
+					continue
+				}
+				if got, ok := new(bn256.G2).Unmarshal(op.Encode()); ok {
+					c.Violation("G2 off-curve point accepted", "")
+					t.Fatalf("VF-VIOLATION: property=C52 G2.Unmarshal accepted %x, which is not on the twist (%s of a genuine point; y^2 - x^3 - b' vanishes in one component only: %s); re-marshals to %x...", op.Encode(), c52OneComponentNames[m], cc, got.Marshal()[:16])
+				}
+				c.Case(true, fmt.Sprintf("directed|g2-one-component|%d|%d|%s", k, m, cc), "directed:g2-off-curve:"+cc)
+				oc++
+			}
+		}
+		g := rc.G1Gen().Mul(big.NewInt(int64(k)))
+		y1 := new(big.Int).Add(g.Y, big.NewInt(1))
+		y1.Mod(y1, rc.BNP)
+		for _, bad := range []rc.G1Pt{{X: new(big.Int).Sub(rc.BNP, g.X), Y: g.Y}, {X: g.Y, Y: g.X}, {X: g.X, Y: y1}} {
+			if rc.G1OnCurve(bad.X, bad.Y) {
+				continue
+			}
+			if _, ok := new(bn256.G1).Unmarshal(bad.Encode()); ok {
+				c.Violation("G1 off-curve point accepted", "")
+				t.Fatalf("VF-VIOLATION: property=C52 G1.Unmarshal accepted the off-curve pair %x", bad.Encode())
+			}
+			c.Case(true, fmt.Sprintf("directed|g1-off-curve|%d", k), "directed:g1-off-curve")
+		}
+	}
+	c.Exhaustive("off-curve pairs satisfying the equation in one F_p^2 component (5 maps of [k]Q and of non-subgroup points), G1 sign/swap/+1", oc)
 
 	// directed: on-curve points with a coordinate at the edges of [0, p) — every boundary value as x and as y
 	// (G1), every boundary value in either half of x and of y with a boundary or fixed other half (G2)
